@@ -259,6 +259,8 @@ type sfwWorld struct {
 	// fullRange: this run's rule sets may hold "every port by range" rules (65535 table entries each: kept to a
 	// minority of runs so that the others stay fast)
 	fullRange bool
+	// versionOnly: the next reload installs a new firewall object although nothing that decides a packet changed
+	versionOnly bool
 	V       *simNode
 	peers   []*fwPeer
 	ref     *sfwRef
@@ -455,14 +457,19 @@ func (w *sfwWorld) applyRules(in, out []fwRule, initial bool) {
 	if initial {
 		return
 	}
+	// changed: what decides a packet changed (rule lists, default_local_cidr_any, the node's unsafe networks).
+	// versionOnly: the firewall section changed in a way that leaves the rules alone (idle timeouts): a new firewall
+	// object with the next rules version is installed and every tracked flow is judged again, but this is "a reload
+	// that changes nothing about the rules" and must not cut any flow.
 	changed := w.forceChanged || fmt.Sprint(in, out) != fmt.Sprint(w.ref.in, w.ref.out)
-	w.forceChanged = false
+	moved := changed || w.versionOnly
+	w.forceChanged, w.versionOnly = false, false
 	if err := w.V.reload(w.vSpec.configYAML()); err != nil {
 		w.rc.HarnessError("reload: %v", err)
 		return
 	}
 	w.rc.Count("op.reload_firewall", 1)
-	if !changed {
+	if !moved {
 		w.rc.Count("op.reload_identical", 1)
 		return
 	}
@@ -472,6 +479,10 @@ func (w *sfwWorld) applyRules(in, out []fwRule, initial bool) {
 		// the version counter wrapped: every flow needs a rule again
 		w.ref.flows = map[firewall.Packet]*refFlow{}
 		w.rc.Count("probe.rules_version_wrapped", 1)
+	}
+	if !changed {
+		w.rc.Count("op.reload_rules_untouched_new_version", 1)
+		return
 	}
 	for _, f := range w.ref.flows {
 		f.rulesChanged = true
@@ -681,11 +692,12 @@ func runSFW(rc *sk.RunCtx, focus string) {
 		case 2: // reload
 			switch tp.Choose(7) {
 			case 6: // same rules, other idle timeouts: tracked flows stay tracked, the new timeouts apply from their next packet
+				was := [3]time.Duration{ref.tcpT, ref.udpT, ref.defT}
 				ref.tcpT = time.Duration(1+tp.Choose(20)) * time.Second
 				ref.udpT = time.Duration(1+tp.Choose(10)) * time.Second
 				ref.defT = time.Duration(1+tp.Choose(15)) * time.Second
+				w.versionOnly = was != [3]time.Duration{ref.tcpT, ref.udpT, ref.defT}
 				deepMerge(w.baseCfg, map[string]any{"firewall": map[string]any{"conntrack": map[string]any{"tcp_timeout": ref.tcpT.String(), "udp_timeout": ref.udpT.String(), "default_timeout": ref.defT.String()}}})
-				w.forceChanged = true // a new firewall object is built: the rules version moves on
 				w.applyRules(ref.in, ref.out, false)
 				rc.Count("op.reload_conntrack_timeouts", 1)
 			case 5: // the node's certificate is re-issued (same key, same networks) with another set of unsafe networks
